@@ -247,7 +247,7 @@ def check(ctx, c, lang, obs=None):
     return probs, r
 
 
-def minimise(ctx, c, lang, sig, budget=200):
+def minimise(ctx, c, lang, sig, budget=1500):
     steps = 0
 
     def still(c2):
